@@ -91,7 +91,7 @@ CONCUR_MON = {
 
 FAULT = {
     'C17': dict(mode='fault', quick=dict(kinds=['deadlock', 'deadlock_rb', 'duplicate', 'generic', 'conn']),
-                thorough=dict(kinds=['deadlock', 'deadlock_rb', 'duplicate', 'generic', 'conn'])),
+                thorough=dict(kinds=['deadlock', 'deadlock_rb', 'duplicate', 'generic', 'conn'], pairs=250)),
     'C18': dict(mode='crash', quick=dict(kinds=['crash']), thorough=dict(kinds=['crash'])),
 }
 
@@ -525,7 +525,8 @@ def run_fault(prop, tier, seed, model=True):
     for w in range(nw):
         idx = list(range(w, nitems, nw))
         if idx:
-            jobs.append({'mode': cfg['mode'], 'indices': idx, 'kinds': cfg[tier]['kinds']})
+            jobs.append({'mode': cfg['mode'], 'indices': idx, 'kinds': cfg[tier]['kinds'],
+                         'pairs': cfg[tier].get('pairs', 0)})
     try:
         with ctx.Pool(len(jobs)) as pool:
             results = pool.map(faults.worker, jobs, chunksize=1)
@@ -548,9 +549,12 @@ def run_fault(prop, tier, seed, model=True):
                 continue
             if any(m.startswith('MACHINERY') for m in mons):
                 raise Machinery('a statement other than ROLLBACK was issued after the crash point: %s' % bad['label'])
-            sig = {'engine': 'fault', 'op': bad['req']['op'], 'kind': bad['fault']['kind'],
+            sig = {'engine': 'fault', 'op': bad['req']['op'],
+                   'kind': 'deadlock_rb' if 'deadlock_rb' in bad['fault']['kind'] else bad['fault']['kind'],
                    'monitors': ','.join(mons), 'status': bad['status'],
-                   'differs': ','.join(m[8:] for m in bad['monitors'] if m.startswith('differs:'))}
+                   'differs': ','.join(m[8:] for m in bad['monitors'] if m.startswith('differs:')),
+                   'residue': ','.join(m[8:] for m in bad['monitors'] if m.startswith('residue:')),
+                   'faults': 2 if '+' in bad['fault']['kind'] else 1}
             f = findings.lookup(prop, sig)
             why = '%s: %s with %s at statement %d (%s) answered %s' % (
                 ','.join(mons), bad['label'], bad['fault']['kind'], bad['fault']['k'],
